@@ -12,3 +12,5 @@ open Rtsp.Peer.C19
 #print axioms anyport_latches_first
 #print axioms other_ip_rejected_unchanged
 #print axioms other_conn_rejected_unchanged
+#print axioms linked_only_to_own_address
+#print axioms driven_only_from_author_address
